@@ -105,3 +105,48 @@ func verifHarness_C05_embedded() {
 	}
 	verifReach("end")
 }
+
+type verifC11Blocks struct {
+	F []string
+	X int64 `json:"-"`
+}
+
+// C11: an array of pointer-carrying elements arriving in several blocks (with
+// and without byte-size prefixes) into a nil or populated slice: every backing
+// array the decoder grows into must be allocated with the element's layout, so
+// that the collector sees the string pointers stored in it (engine: strict
+// heap typing; natively: the decoded strings survive collections and churn).
+func verifHarness_C11_array_blocks_of_pointers() {
+	verifStrictHeap(true)
+	s, err := SchemaForType(verifC11Blocks{})
+	verifAssume(err == nil)
+	c, err := s.Codec(verifC11Blocks{})
+	verifAssume(err == nil)
+	n := 3 + verifChoice("n", 2)
+	d := refDatum{K: 'r', Items: []refDatum{{K: 'a'}}}
+	for i := 0; i < n; i++ {
+		d.Items[0].Items = append(d.Items[0].Items, refStr(verifBytes("e"+string(rune('0'+i)), 2)))
+	}
+	ch := &refChoices{split: []int{1 + verifChoice("split", n-1)}, sized: []bool{verifNondetBool("sized")}}
+	enc := refEncode(&s, &d, ch)
+	var out verifC11Blocks
+	if verifChoice("prefilled", 2) == 1 {
+		out.F = make([]string, 1, 1+verifChoice("sparecap", 2))
+		out.F[0] = "zz"
+	}
+	pre := len(out.F)
+	r := NewReadBuf(enc)
+	err = c.Read(r, unsafe.Pointer(&out))
+	verifAssert(err == nil, "C11:multi-block-array-read-ok")
+	verifGCChurn()
+	if err == nil {
+		verifAssert(len(out.F) == pre+n && len(out.F) <= cap(out.F), "C11:slice-length-within-its-capacity")
+		ok := true
+		for i := 0; i < n && pre+i < len(out.F); i++ {
+			ok = verifAnd(ok, verifStrEq(out.F[pre+i], string(d.Items[0].Items[i].B)))
+		}
+		verifAssert(ok, "C11:decoded-value-survives-collections")
+	}
+	verifKeepAlive(r)
+	verifReach("end")
+}
